@@ -722,6 +722,44 @@ def run(prog: Program) -> Results:
     from sa.rules import poslint
     poslint.check(prog, res, "R-C12-7")
     one_bare_name_language(prog, res, "R-C12-8")
+    # ------------------------------------------------------------ R-C12-10 sets are searched with the formatted spelling only
+    r10 = res.rule("R-C12-10", "a path segment reaches a lookup only in its formatted spelling (_format_attr_name): the raw `.name` of an "
+                   "_NPathSegment is never used as a key (`S[seg.name]`, `_find_*(S, seg.name)`) — the raw text of a quoted segment "
+                   "such as `\"a.b\"` would be split at its dot by the dotted-key fallback of the mapping", floor=2)
+    for f in prog.all_functions():
+        if f.module != MANIP:
+            continue
+        segvars = set()
+        for a_ in f.node.args.args + f.node.args.kwonlyargs:
+            if a_.annotation is not None and "_NPathSegment" in norm(a_.annotation) and "list" not in norm(a_.annotation):
+                segvars.add(a_.arg)
+        seglists = {norm(d.targets[0]) for d in walk_no_nested(f.node) if isinstance(d, ast.Assign) and isinstance(d.value, ast.Call)
+                    and callee(d.value) == "_parse_npath"}
+        for lp in walk_no_nested(f.node):
+            if isinstance(lp, ast.For) and isinstance(lp.target, ast.Name):
+                it = lp.iter.value if isinstance(lp.iter, ast.Subscript) else lp.iter
+                if norm(it) in seglists:
+                    segvars.add(lp.target.id)
+        if not segvars:
+            continue
+        r10.instances += 1
+        bad = []
+        for n in walk_no_nested(f.node):
+            key = None
+            if isinstance(n, ast.Subscript) and isinstance(n.slice, ast.Attribute) and n.slice.attr == "name" and isinstance(n.slice.value, ast.Name) \
+                    and n.slice.value.id in segvars:
+                key = n
+            elif isinstance(n, ast.Call) and (callee(n) or "").startswith("_find") and any(
+                    isinstance(a_, ast.Attribute) and a_.attr == "name" and isinstance(a_.value, ast.Name) and a_.value.id in segvars for a_ in n.args):
+                key = n
+            if key is not None:
+                bad.append(key)
+        r10.ob(not bad, None if not bad else {"site": f.key, "raw_key_lookups": [norm(b)[:50] for b in bad]})
+        for b in bad:
+            res.add("R-C12-10", (f.key, "lookup keyed by the raw segment name"), f.loc(b),
+                    f"{f.key}: `{norm(b)[:60]}` searches with the unformatted name of a path segment: for the quoted segment `\"a.b\"` the "
+                    f"mapping's dotted-key fallback splits the raw text at the dot and walks `a` then `b` — `set '\"a.b\".c' 2` rewrites "
+                    f"`a.b.c` instead of creating `\"a.b\"`")
     # ------------------------------------------------------------ R-C12-9 every name read from a file passes the splitter
     r9 = res.rule("R-C12-9", "every binding name read from a file is split by _split_attrpath (the one scanner that knows quotes and "
                   "interpolations); a bypass is taken only under `\".\" not in name`, not under a guess about the quotes", floor=1)
